@@ -100,7 +100,7 @@ static RunOut run_fresh(const tis::Scenario& s0, int threads, uint64_t sched_see
 static std::string identity_case(const Args& a, long i) {
     Rng g(a.seed, (uint64_t)i, 0x15); Case c(i);
     int iters = g.range((int)a.geti("min_iterations", 25), (int)a.geti("max_iterations", 50));
-    tis::Scenario s = make_far(g, iters, i % 3 == 0);
+    tis::Scenario s = make_far(g, iters, i % a.geti("large_every", 3) == 0);
     auto& S = verif::get(); S.rng_seed = rng_seed; S.sched_point = sched_point; S.phase = on_phase; g_limit = tis::extent_limit(s);
     std::string out = "thr_out_" + std::to_string(i) + "_" + std::to_string((long)getpid()); uint64_t base = hash_combine(a.seed, (uint64_t)i);
     const bool fresh = a.geti("fresh_process", 1) != 0; auto RUN = [&](int t, uint64_t ss, bool on) { return fresh ? run_fresh(s, t, ss, on, base, out) : run_tissue(s, t, ss, on, base, out); };
